@@ -340,7 +340,13 @@ func (loader *Loader) visitRef(ref string) {
 // unvisitRef hands the resolved value to every position that met ref while it was being resolved.
 // It fails when one of them expects a value of another kind.
 func (loader *Loader) unvisitRef(ref string, value any) (err error) {
-	if value != nil {
+	if v := reflect.ValueOf(value); value == nil || v.Kind() == reflect.Ptr && v.IsNil() {
+		// nothing was found behind ref: the positions waiting for it are part of
+		// a cycle of references that designates no object
+		if len(loader.backtrack[ref]) != 0 {
+			err = fmt.Errorf("reference cycle through %q does not lead to an object", ref)
+		}
+	} else {
 		for _, fn := range loader.backtrack[ref] {
 			if e := fn(value); e != nil && err == nil {
 				err = e
